@@ -347,7 +347,13 @@ func (b *BaseType) UnmarshalJSON(data []byte) error {
 		case []interface{}:
 			// it's an OvsSet
 			oSet := bt.Enum.([]interface{})
-			innerSet := oSet[1].([]interface{})
+			if len(oSet) != 2 || oSet[0] != "set" {
+				return fmt.Errorf("enum of <base-type> is neither an atom nor a set: %v", bt.Enum)
+			}
+			innerSet, ok := oSet[1].([]interface{})
+			if !ok {
+				return fmt.Errorf("enum of <base-type> is neither an atom nor a set: %v", bt.Enum)
+			}
 			b.Enum = make([]interface{}, len(innerSet))
 			copy(b.Enum, innerSet)
 		default:
@@ -449,6 +455,9 @@ func (c *ColumnType) UnmarshalJSON(data []byte) error {
 	if err != nil {
 		return err
 	}
+	if colType.Key == nil {
+		return fmt.Errorf("<type> without key")
+	}
 	c.Key = colType.Key
 	c.Value = colType.Value
 	c.min = colType.Min
@@ -546,6 +555,9 @@ func (c *ColumnSchema) UnmarshalJSON(data []byte) error {
 		return fmt.Errorf("cannot parse column object %s", err)
 	}
 
+	if colJSON.Type == nil {
+		return fmt.Errorf("cannot parse column object: no type")
+	}
 	c.ephemeral = colJSON.Ephemeral
 	c.mutable = colJSON.Mutable
 	c.TypeObj = colJSON.Type
